@@ -669,6 +669,9 @@ class BaseCartesianData(BaseData, metaclass=abc.ABCMeta):
 
         self._externally_derivable_components = derivable_components
 
+        # Masks of selections that read attributes through the links are cached
+        _clear_subset_state_caches()
+
         if self.hub:
             msg = ExternallyDerivableComponentsChangedMessage(self)
             self.hub.broadcast(msg)
